@@ -295,3 +295,6 @@ Definition tree_code (c : list item * (list nat * obs)) : nat :=
   (if list_nat_eqb (tokens_of l) types then 0 else 1)
   + (if obs_eqb (model_obs (tokens_of l)) (0, 0, 0, reds_of l) then 0 else 2)
   + (if obs_eqb o (0, 0, 0, reds_of l) then 0 else 4).
+
+Definition tree_code_N (c : list item * (list N * obsN)) : nat :=
+  let '(l, (types, o)) := c in tree_code (l, (map N.to_nat types, obs_of_N o)).
